@@ -695,10 +695,12 @@ pub mod life {
         use futures_core::stream::{FusedStream, Stream};
         let (tx, rx) = Mpmc::<M>::mk();
         let sent = s.flag();
-        let closed = s.flag();
+        let closer = s.below(3); // 0 nobody, 1 the sender before into_stream(), 2 the STREAM's own close() afterwards
+        let closed = closer != 0;
         if sent { core::mem::forget(tx.try_send(Tag(1))); }
-        if closed { let _ = tx.close(); }
+        if closer == 1 { let _ = tx.close(); }
         let mut st = ManuallyDrop::new(rx.into_stream());
+        if closer == 2 { let _ = st.close(); }
         if (p & P18) != 0 { arm_alloc(); }
         if (p & P17) != 0 { assert!(!st.is_terminated(), "C17 shared stream: a fresh stream reports terminated"); }
         let cell = WakeCell::new();
@@ -706,13 +708,13 @@ pub mod life {
         let mut cx = Context::from_waker(&waker);
         let r1 = unsafe { Pin::new_unchecked(&mut *st) }.poll_next(&mut cx);
         let mut ended = false;
-        if (p & P17) != 0 {
+        if (p & (P17 | P08)) != 0 {
             match r1 {
-                Poll::Ready(Some(t)) => { assert!(sent && t.0 == 1, "C17 shared stream: yielded an item that was never sent"); core::mem::forget(t); }
-                Poll::Ready(None) => { assert!(closed && !sent, "C17 shared stream: ended although the channel is open or a value is buffered"); ended = true; }
-                Poll::Pending => { assert!(!sent && !closed, "C17 shared stream: pending although a value is buffered or the channel is closed"); }
+                Poll::Ready(Some(t)) => { assert!(sent && t.0 == 1, "C08+C17 shared stream: yielded an item that was never sent"); core::mem::forget(t); }
+                Poll::Ready(None) => { assert!(closed && !sent, "C08+C17 shared stream: ended although the channel is open or an accepted value is still buffered (it was discarded)"); ended = true; }
+                Poll::Pending => { assert!(!sent && !closed, "C08+C17 shared stream: pending although a value is buffered or the channel is closed"); }
             }
-            assert!(st.is_terminated() == ended, "C17 shared stream: is_terminated() differs from 'None was yielded'");
+            if (p & P17) != 0 { assert!(st.is_terminated() == ended, "C17 shared stream: is_terminated() differs from 'None was yielded'"); }
         } else { core::mem::forget(r1); }
         let r2 = unsafe { Pin::new_unchecked(&mut *st) }.poll_next(&mut cx);
         if (p & P17) != 0 {
@@ -728,7 +730,7 @@ pub mod life {
             disarm_alloc();
         }
         core::mem::forget(tx);
-        let bits = (sent as u32) | ((closed as u32) << 1);
+        let bits = (sent as u32) | ((closer as u32) << 1);
         s.reached(bits);
         bits
     }
@@ -827,7 +829,10 @@ pub mod life {
         fn shared_stream_min_c18() { let _ = shared_stream_min::<NL, _>(&mut KaniSrc, P18); }
         #[kani::proof]
         #[kani::unwind(4)]
-        fn shared_stream_min_c17() { let b = shared_stream_min::<NL, _>(&mut KaniSrc, P17); kani::cover!(b == 3, "W shared stream: value buffered and closed"); }
+        fn shared_stream_min_c17() { let b = shared_stream_min::<NL, _>(&mut KaniSrc, P17); kani::cover!(b == 5, "W shared stream: value buffered, closed by the stream itself"); }
+        #[kani::proof]
+        #[kani::unwind(4)]
+        fn shared_stream_min_c08() { let _ = shared_stream_min::<NL, _>(&mut KaniSrc, P08); }
         #[kani::proof]
         #[kani::unwind(4)]
         fn repoll_panics_shared_send() {
